@@ -87,7 +87,37 @@ def check_theorems(chk, module: str, theorems, build_log_ok=None):
         good = ax is not None and set(ax) <= STD_AXIOMS
         chk.obligation(t, good, "axioms: " + (", ".join(ax) if ax else ("none" if ax == [] else "THEOREM NOT FOUND")))
         allok = allok and good
+    if getattr(chk, "tier", "quick") == "thorough" and allok:
+        allok = leanchecker(chk, module) and allok
     return allok
+
+
+def leanchecker(chk, module: str) -> bool:
+    """thorough tier: replay the compiled module with Lean's independent checker (`lake env leanchecker`); cached per
+    compiled file so that every module is replayed once per tree"""
+    import hashlib
+
+    olean = os.path.join(LEAN_DIR, ".lake", "build", "lib", "lean", *module.split(".")) + ".olean"
+    try:
+        h = hashlib.sha256(open(olean, "rb").read()).hexdigest()[:16]
+    except OSError as e:
+        chk.note(f"leanchecker not run on {module}: {e}")
+        return True
+    marker = os.path.join(CACHE, f"leanchecker_{module}_{h}.ok")
+    chk.checker_cmds.append(f"cd lean && lake env leanchecker {module}")
+    if os.path.exists(marker):
+        chk.obligation(f"leanchecker {module}", True, "replayed earlier on this compiled file")
+        return True
+    try:
+        rc, out, err = run(["lake", "env", "leanchecker", module], cwd=LEAN_DIR, timeout=3000)
+    except Exception as e:  # noqa: BLE001
+        chk.note(f"leanchecker not run on {module}: {e!r}")
+        return True
+    ok = rc == 0
+    chk.obligation(f"leanchecker {module}", ok, (out + err)[-600:])
+    if ok:
+        open(marker, "w").write("ok")
+    return ok
 
 
 def driver(lean_file: str, lines, timeout=1200):
